@@ -87,7 +87,21 @@ def unparse(e, rng, parent=0, noise=0.15, right=False):
     return res
 
 
+_REUSE = []      # sub-expressions of the program being generated (the same sub-expression may recur in later statements)
+
+
 def rand_expr(rng, nets, depth, consts=0.12, xconst=0.0, allow_ternary=True, top=True):
+    if _REUSE and depth > 0 and rng.random() < 0.12:
+        e = rng.choice(_REUSE)
+        if nets_of(e) <= set(nets) and not (top is False and e[0] == "?:"):
+            return e
+    e = _rand_expr(rng, nets, depth, consts, xconst, allow_ternary, top)
+    if e[0] not in ("id", "c", "?:") and len(_REUSE) < 40:
+        _REUSE.append(e)
+    return e
+
+
+def _rand_expr(rng, nets, depth, consts=0.12, xconst=0.0, allow_ternary=True, top=True):
     if depth == 0 or rng.random() < 0.25:
         r = rng.random()
         if r < xconst:
@@ -111,7 +125,7 @@ def rand_expr(rng, nets, depth, consts=0.12, xconst=0.0, allow_ternary=True, top
 
 NAME_POOLS = {
     "plain": ["a", "b", "c", "d", "y", "z", "w", "n1", "n2", "n3", "q0", "o_1", "sig"],
-    "synthetic": ["not_a", "and_a_b", "or_a_b", "xor_a_b", "xnor_a_b", "mux_o_a_b_c", "not_b", "and_b_c", "g_0", "g_1", "tie0", "tie1", "tie_0", "tie_1", "a_dup",
+    "synthetic": ["not_a", "and_a_b", "or_a_b", "xor_a_b", "xnor_a_b", "mux_o_a_b_c", "not_b", "and_b_c", "g_0", "g_1", "tie0", "tie1", "tie_0", "tie_1", "a_dup", "not_a_0", "and_a_b_0", "tie_0_0", "xor_a_b_0",
                   "a", "b", "c", "y", "z", "w"],
     "escaped": ["\\a[0]", "\\b.c", "\\n$1", "a", "b", "y", "\\y[1]", "z", "w", "c"],
 }
@@ -119,6 +133,7 @@ NAME_POOLS = {
 
 def rand_program(rng, style="mixed", pool="plain", n_in=None, n_items=None, bb=0.0, xconst=0.05, depth=3, allow_ternary=True):
     """A random program: items in dependency order; text order is a separate permutation."""
+    del _REUSE[:]
     names = list(NAME_POOLS[pool])
     rng.shuffle(names)
     n_in = n_in or rng.randint(1, 4)
@@ -331,8 +346,10 @@ def fast_program(rng, bb=0.3):
     items = []
     for it in p["items"]:
         if it["k"] == "bb":
-            # the fast parser matches instance names with [a-zA-Z][a-zA-Z\d_]* and nets with \S+
-            it = dict(it, conns=[[pn, e] for pn, e in it["conns"]])
+            # input pins may be tied to a constant (sometimes the only use of that constant in the netlist)
+            ins = next(t for t in p["bbtypes"] if t["type"] == it["type"])["ins"]
+            it = dict(it, conns=[[pn, (("c", rng.choice(["0", "1"])) if (pn in ins and e is not None and rng.random() < 0.25) else e)]
+                                 for pn, e in it["conns"]])
         items.append(it)
     # a few assigns of a net or a constant
     names = [n for n in NAME_POOLS["plain"] if n not in p["inputs"] and n not in p["wires"] and n not in p["outputs"]]
